@@ -69,6 +69,12 @@ impl Channel {
 
         (*request.headers_mut()) = headers;
 
+        #[cfg(feature = "verif-hooks")]
+        if let Some(resp) = crate::verif::try_local_dispatch(self.remote_addr, &mut request).await
+        {
+            return resp;
+        }
+
         #[cfg(not(feature = "simulation"))]
         let resp = self.connection.request(request).await?;
         #[cfg(feature = "simulation")]
